@@ -8,6 +8,8 @@ from /repo/src and rewritten by the unit's rules - i.e. to the text Verus sees, 
 are merged in - and the unit is verified again (build.check_unit(mutate=...), no canary).  A mutant is
   killed     : Verus reports a verification error (a contract of the unit rejects the changed code),
   survived   : Verus accepts every obligation (the contracts do not tell the changed code from the real one),
+  undecided  : the only failed obligation is a proof hint right next to the edited line (DESIGN 0A.2d: reported as inconclusive by
+               the Verus step; the bounded step of the property decides),
   invalid    : the changed text does not type-check, the overlay cannot be aligned, or a resource limit is hit.
 Survivors are either equivalent changes (the operators are blind) or weaknesses of a contract; they are listed so that
 each can be looked at.  Nothing here touches /repo; the mutant files live in .cache/gen and are removed.
@@ -119,8 +121,9 @@ def run_one(args):
         verdict = 'killed'
         why = '; '.join(sorted(set('%s: %s' % (x['fn'], x['msg']) for x in r['failed'])))[:300]
     elif r['inconclusive']:
-        verdict = 'invalid'
         why = '; '.join(r['inconclusive'])[:300]
+        verdict = 'undecided' if all('proof hint next to changed code' in x for x in r['inconclusive']) else 'invalid'
+
     else:
         verdict = 'survived'
         why = ''
@@ -175,10 +178,10 @@ def main():
                 print('  %d/%d' % (len(res), len(jobs)), file=sys.stderr)
     summary = {}
     for r in res:
-        s = summary.setdefault(r['fn'], dict(killed=0, survived=0, invalid=0))
+        s = summary.setdefault(r['fn'], dict(killed=0, survived=0, undecided=0, invalid=0))
         s[r['verdict']] += 1
-    tot = dict(killed=sum(s['killed'] for s in summary.values()), survived=sum(s['survived'] for s in summary.values()), invalid=sum(s['invalid'] for s in summary.values()))
-    out = dict(unit=a.unit, total=tot, per_function=summary, survivors=[r for r in res if r['verdict'] == 'survived'], invalid_sample=[r for r in res if r['verdict'] == 'invalid'][:20])
+    tot = dict(killed=sum(s['killed'] for s in summary.values()), survived=sum(s['survived'] for s in summary.values()), undecided=sum(s['undecided'] for s in summary.values()), invalid=sum(s['invalid'] for s in summary.values()))
+    out = dict(unit=a.unit, total=tot, per_function=summary, survivors=[r for r in res if r['verdict'] == 'survived'], undecided=[r for r in res if r['verdict'] == 'undecided'], invalid_sample=[r for r in res if r['verdict'] == 'invalid'][:20])
     if a.out:
         json.dump(out, open(a.out, 'w'), indent=1)
     print(json.dumps(dict(unit=a.unit, total=tot), indent=None))
